@@ -386,6 +386,8 @@ class Program:
         m = re.fullmatch(r"'(.)'", body)
         if m:
             return ord(m.group(1))
+        if body in ("'\\0'",):
+            return 0
         if re.fullmatch(r'-?\d+[uUlL]*', body):
             return int(re.sub(r'[uUlL]+$', '', body))
         if re.fullmatch(r'0[xX][0-9a-fA-F]+[uUlL]*', body):
